@@ -376,6 +376,9 @@ func (ev *evaluator) localByName(name string) (SV, bool) {
 		if fv.Name() == want {
 			ptr := ev.fc.value(fr, st, fv)
 			elem := fv.Type().(*types.Pointer).Elem()
+			if _, isS := isStructVal(elem); isS && namedPath(elem) != "time.Time" {
+				return SV{ptr, elem}, true // captured struct variable: the object itself
+			}
 			return SV{ev.fc.load(st, ptr, elem, nil), elem}, true
 		}
 	}
@@ -641,6 +644,15 @@ func (ev *evaluator) evalQuant(x *EQuant) SV {
 	}
 	ev.bound = append(ev.bound, scope)
 	body := ev.evalBool(x.Body)
+	var pats []string
+	for _, tr := range x.Triggers {
+		sv := ev.eval(tr)
+		if tt, ok := sv.V.(Term); ok {
+			pats = append(pats, tt.S)
+		} else {
+			ev.fail("trigger is not a term")
+		}
+	}
 	ev.bound = ev.bound[:len(ev.bound)-1]
 	q := "forall"
 	if x.Forall {
@@ -648,6 +660,9 @@ func (ev *evaluator) evalQuant(x *EQuant) SV {
 	} else {
 		q = "exists"
 		body = tAnd(append(guards, body)...)
+	}
+	if len(pats) > 0 {
+		return SV{T(SBool, fmt.Sprintf("(%s (%s) (! %s :pattern (%s)))", q, strings.Join(decl, " "), body.S, strings.Join(pats, " "))), types.Typ[types.Bool]}
 	}
 	return SV{T(SBool, fmt.Sprintf("(%s (%s) %s)", q, strings.Join(decl, " "), body.S)), types.Typ[types.Bool]}
 }
@@ -905,6 +920,29 @@ func (ev *evaluator) evalCall(x *ECall) SV {
 			return SV{slArr(t), nil}
 		}
 		return SV{slOff(t), nil}
+	case "reqOrigin", "reqHash", "reqIsOrigin", "reqIsHash":
+		// accessors of the protobuf oneof HeaderRequest.Data (mirror the generated GetOrigin/GetHash)
+		r, _ := ev.evalTerm(x.Args[0])
+		reqT, _ := ev.fc.eng.lookupNamedType("pb", "HeaderRequest").(*types.Named)
+		orgT, _ := ev.fc.eng.lookupNamedType("pb", "HeaderRequest_Origin").(*types.Named)
+		hashT, _ := ev.fc.eng.lookupNamedType("pb", "HeaderRequest_Hash").(*types.Named)
+		if reqT == nil || orgT == nil || hashT == nil {
+			ev.fail("pb.HeaderRequest types not loaded")
+		}
+		ev.fc.decls.fun("dynType", []string{SInt}, SInt)
+		d := tSelect(ev.heap(structHeapName(reqT, "Data"), SInt), r)
+		isOrg := tAnd(tNot(tEq(d, intLit(0))), tEq(app(SInt, "dynType", d), intLit(int64(dynTypeID(orgT)))))
+		isHash := tAnd(tNot(tEq(d, intLit(0))), tEq(app(SInt, "dynType", d), intLit(int64(dynTypeID(hashT)))))
+		switch id.Name {
+		case "reqIsOrigin":
+			return SV{isOrg, boolT}
+		case "reqIsHash":
+			return SV{isHash, boolT}
+		case "reqOrigin":
+			return SV{tIte(isOrg, tSelect(ev.heap(structHeapName(orgT, "Origin"), SInt), d), intLit(0)), types.Typ[types.Uint64]}
+		default:
+			return SV{tIte(isHash, tSelect(ev.heap(structHeapName(hashT, "Hash"), SBytes), d), T(SBytes, "nilBytes")), nil}
+		}
 	case "at":
 		// at(s, k): element of the backing array of slice s at the ABSOLUTE index k (s[i] == at(s, off(s)+i));
 		// quantifying over absolute indices keeps triggers stable under re-slicing
